@@ -1,0 +1,31 @@
+//go:build verif
+
+package opshell
+
+import (
+	"os"
+	"strings"
+	"sync"
+	"time"
+)
+
+// verifPauses maps a point name to a delay, from the environment variable
+// VERIF_OPSHELL_PAUSE (e.g. "ctrl-o=20ms").  It exists only for verification
+// harnesses: it stretches a window in which the scheduler may preempt anyway.
+var verifPauses = sync.OnceValue(func() map[string]time.Duration {
+	m := make(map[string]time.Duration)
+	for _, kv := range strings.Split(os.Getenv("VERIF_OPSHELL_PAUSE"), ",") {
+		if k, v, ok := strings.Cut(kv, "="); ok {
+			if d, err := time.ParseDuration(v); nil == err {
+				m[k] = d
+			}
+		}
+	}
+	return m
+})
+
+func verifPause(point string) {
+	if d := verifPauses()[point]; 0 < d {
+		time.Sleep(d)
+	}
+}
